@@ -26,7 +26,7 @@ m = {
     "setup_cmd": "./vcheck setup",
     "hooks": {"guard": "PHOTOSPLINE_VERIF", "enable": "vcheck compiles /repo's sources itself and passes -DPHOTOSPLINE_VERIF (COMMON_DEFS in /verif/vcheck); the project's own build never defines it",
               "baseline_off_cmd": "cmake --build /repo/_build -j16 -- -k 0; ctest --test-dir /repo/_build -j8 --timeout 900",
-              "source_commits": ["631288f"], "add_only": True},
+              "source_commits": ["631288f", "f64b46f"], "add_only": True},
     "engines": [
         {"name": "rapidcheck", "path": "harness/common/vf_rc.hpp", "serves_properties": sorted(vconfig.PROPS), "kind_free_text": "property-based testing (rapidcheck 'checkProperty' over recorded choice sequences; inline or fork-per-case isolated execution; shrunk failures written as replay files)"},
     ],
